@@ -533,3 +533,25 @@ func (r *Run) Finish() {
 	b, _ := json.MarshalIndent(out, "", " ")
 	_ = os.WriteFile(r.statsPath, b, 0o644)
 }
+
+// ---- breadcrumb: the case in flight, for faults that kill the process ----
+
+var crumbFile *os.File
+
+// Crumb records the input a check is about to hand to the library in the file crumb.bin of the working directory (one
+// positioned write, no sync). A fault the Go runtime does not let a test recover from - stack exhaustion by unbounded
+// recursion, "concurrent map writes" - kills the shard; the driver then finds the last input there and reports it.
+func Crumb(entry string, in []byte) {
+	if crumbFile == nil {
+		f, err := os.OpenFile("crumb.bin", os.O_CREATE|os.O_WRONLY|os.O_TRUNC, 0o644)
+		if err != nil {
+			return
+		}
+		crumbFile = f
+	}
+	if len(in) > 4096 {
+		in = in[:4096]
+	}
+	rec := fmt.Sprintf("%s %x\n", entry, in)
+	_, _ = crumbFile.WriteAt([]byte(fmt.Sprintf("%08d\n%s", len(rec), rec)), 0)
+}
